@@ -58,6 +58,39 @@ def _strip_docstrings(tree: ast.AST) -> ast.AST:
     return tree
 
 
+class _RenameLocals(ast.NodeTransformer):
+    """K4: inside every function, consistently rename each local variable (a name the function binds that is not a
+    parameter, global/nonlocal, or a parameter of a nested def/lambda) to <name>_rn.  Purely alpha-renaming."""
+
+    def visit_FunctionDef(self, node: ast.FunctionDef):  # outermost functions only
+        if any(isinstance(n, (ast.ClassDef, ast.Global, ast.Nonlocal)) for n in ast.walk(node)):
+            return node
+        if any(isinstance(n, ast.Call) and isinstance(n.func, ast.Name) and n.func.id in ("locals", "vars", "exec", "eval") for n in ast.walk(node)):
+            return node
+        params = set()
+        for n in ast.walk(node):
+            if isinstance(n, ast.arguments):
+                for a in n.posonlyargs + n.args + n.kwonlyargs + ([n.vararg] if n.vararg else []) + ([n.kwarg] if n.kwarg else []):
+                    params.add(a.arg)
+        nested_names = {n.name for n in ast.walk(node) if isinstance(n, (ast.FunctionDef, ast.AsyncFunctionDef)) and n is not node}
+        bound = {n.id for n in ast.walk(node) if isinstance(n, ast.Name) and isinstance(n.ctx, (ast.Store, ast.Del))}
+        for n in ast.walk(node):
+            if isinstance(n, ast.ExceptHandler) and n.name:
+                params.add(n.name)  # keep handler names (bound by the except clause, a str not a Name)
+            if isinstance(n, (ast.Import, ast.ImportFrom)):
+                for a in n.names:
+                    params.add((a.asname or a.name).split(".")[0])
+            if isinstance(n, ast.MatchAs) and n.name:
+                params.add(n.name)
+        ren = {b: b + "_rn" for b in bound - params - nested_names if not b.startswith("__")}
+        for n in ast.walk(node):
+            if isinstance(n, ast.Name) and n.id in ren:
+                n.id = ren[n.id]
+        return node
+
+    visit_AsyncFunctionDef = visit_FunctionDef
+
+
 def _preserving(kind: str, files: list[str], root: Path) -> None:
     for rel in files:
         p = root / rel
@@ -69,6 +102,14 @@ def _preserving(kind: str, files: list[str], root: Path) -> None:
             # keep `from __future__` first: comments before it are fine
         elif kind == "K3-nodocstrings":
             out = ast.unparse(ast.fix_missing_locations(_strip_docstrings(ast.parse(src)))) + "\n"
+        elif kind == "K4-rename-locals":
+            tree = ast.parse(src)
+            # methods and functions at module / class level (nested ones are renamed with their parent)
+            tr = _RenameLocals()
+            for n in ast.walk(tree):
+                if isinstance(n, (ast.Module, ast.ClassDef)):
+                    n.body = [tr.visit_FunctionDef(b) if isinstance(b, (ast.FunctionDef, ast.AsyncFunctionDef)) else b for b in n.body]
+            out = ast.unparse(ast.fix_missing_locations(tree)) + "\n"
         else:
             raise ValueError(kind)
         p.write_text(out, encoding="utf-8")
@@ -87,7 +128,7 @@ def run_thorough(pid: str, mod) -> int:
     mx_path = VERIF / "seeded" / "MATRIX.json"
     mx = json.load(open(mx_path)) if mx_path.exists() else {}
     breaking = sorted(s for s, m in mx.items() if pid in m.get("caught_by", []))
-    keeps = ["K1-unparse", "K2-lineshift", "K3-nodocstrings"]
+    keeps = ["K1-unparse", "K2-lineshift", "K3-nodocstrings", "K4-rename-locals"]
 
     def do_break(sid: str):
         d = _scratch()
